@@ -15,6 +15,7 @@ R7 target-parameter lookup reaches existing options.
 Not decided: interior monotonicity for all parameters (run-time guard); ordering of points.
 """
 import ast
+import re
 
 from ..alg import AlgError, Context, Rat
 from ..extract import Extractor, Closure, Opaque, PathRaises, ReturnValue, _dotted
@@ -258,6 +259,70 @@ def r3_callsites(prog, rep):
                 m += 1
                 rep.ob("R3", "%s: local N_norm == N_norm_prefactor*ny_total" % f.qualname, ok, f.site(s), detail, key="nnorm-local/%s" % f.name)
     rep.floor("R3.nnorm-locals", m, 2)
+    length_arguments(prog, rep)
+
+
+def length_arguments(prog, rep):
+    """s(N) == L puts the last index on the end of the contour only if L is the contour's length
+    between its start and end markers: at every call of a spacing-function constructor the length
+    argument is distance[endInd] - distance[startInd] of the contour being gridded (directly,
+    through totalDistance(), or a parameter that is forwarded), and totalDistance is that
+    difference."""
+    from ..model import inline_temporaries
+    n = 0
+    length_pos = {"getSfuncFixedSpacing": 1, "getSqrtPoloidalDistanceFunc": 0, "getMonotonicPoloidalDistanceFunc": 0, "getLinearPoloidalDistanceFunc": 0}
+    for rel in (EQ, "hypnotoad/core/mesh.py"):
+        mod = prog.module(rel)
+        for f in mod.funcs.values():
+            params = {a.arg for a in f.node.args.args + f.node.args.kwonlyargs}
+            if f.parent is not None:
+                params |= {a.arg for a in f.parent.node.args.args + f.parent.node.args.kwonlyargs}
+            for c in walk_own(f.node):
+                if not (isinstance(c, ast.Call) and isinstance(c.func, ast.Attribute) and c.func.attr in length_pos):
+                    continue
+                k = length_pos[c.func.attr]
+                if len(c.args) <= k:
+                    continue
+                a = c.args[k]
+                n += 1
+                unpacked_from = None
+                if isinstance(a, ast.Name):
+                    for st in walk_own(f.node):
+                        if isinstance(st, ast.Assign) and isinstance(st.targets[0], ast.Tuple) and isinstance(st.value, ast.Call) and isinstance(st.value.func, ast.Attribute) \
+                                and len(st.targets[0].elts) == 2 and isinstance(st.targets[0].elts[1], ast.Name) and st.targets[0].elts[1].id == a.id:
+                            unpacked_from = st.value.func.attr
+                if isinstance(a, ast.Name) and a.id in params:
+                    ok, detail = True, "parameter `%s` forwarded" % a.id
+                elif unpacked_from == "interpSSperp":
+                    # the fixed-perpendicular-spacing variant distributes points in the distance
+                    # perpendicular to a direction vector: its length is the total perpendicular
+                    # distance that interpSSperp returns next to the s(s_perp) map (documented there)
+                    ok, detail = True, "total perpendicular distance returned by interpSSperp"
+                else:
+                    t = mod.code(inline_temporaries(f.node, a, inline_calls=True))
+                    m = re.fullmatch(r"(\w[\w.]*)\.get_distance\((?:psi=[\w.]+)?\)\[(\w[\w.]*)\.endInd\]-(\w[\w.]*)\.get_distance\((?:psi=[\w.]+)?\)\[(\w[\w.]*)\.startInd\]", t)
+                    m2 = re.fullmatch(r"(\w[\w.]*)\.totalDistance\((?:psi=[\w.]+)?\)", t)
+                    if m:
+                        ok = len(set(m.groups())) == 1
+                        detail = "" if ok else "distance, endInd and startInd are taken from different contours: %s" % t
+                    elif m2:
+                        ok, detail = True, "totalDistance of %s" % m2.group(1)
+                    elif re.search(r"get_distance\([^)]*\)\[", t):
+                        ok, detail = False, "length is %s, not distance[endInd] - distance[startInd]" % t
+                    else:
+                        ok, detail = False, "unmodelled length argument %s" % t[:80]
+                rep.ob("R3", "%s: the length given to %s is the contour's distance from startInd to endInd" % (f.qualname, c.func.attr), ok, f.site(c), detail,
+                       key="length/%s/%s/%d" % (f.qualname, c.func.attr, sum(1 for x in walk_own(f.node) if isinstance(x, ast.Call) and isinstance(x.func, ast.Attribute) and x.func.attr == c.func.attr and x.lineno < c.lineno)))
+    rep.floor("R3.length-arguments", n, 9)
+    eqm = prog.module(EQ)
+    for qn in ("PsiContour.totalDistance", "FineContour.totalDistance"):
+        f = eqm.funcs.get(qn)
+        if f is None:
+            raise AnalysisError("%s not found" % qn)
+        rets = [r for r in walk_own(f.node) if isinstance(r, ast.Return)]
+        t = eqm.code(inline_temporaries(f.node, rets[0].value, inline_calls=True)) if len(rets) == 1 else ""
+        ok = t in (K("self.distance[self.endInd] - self.distance[self.startInd]"), K("self.get_distance(psi=psi)[self.endInd] - self.get_distance(psi=psi)[self.startInd]"))
+        rep.ob("R3", "%s is distance[endInd] - distance[startInd]" % qn, ok, f.site(), t, key="length/def/" + qn)
 
 
 def r4(prog, rep):
